@@ -28,6 +28,19 @@ prop("C02",
      rule="structured documents (1/3 valid, 2/3 mutated once or twice) + nesting depth around both limits + exhaustive token sequences over 16 tokens (length<=3 quick, <=5 thorough) x {LazyValue, OwnedLazyValue, IgnoredAny, Value, serde_json::Value, Vec<Value>, HashMap<String,Value>} x {from_slice, from_str, from_reader, Deserializer::from_json over Bytes/FastStr}; non-trivial = distinct input longer than 2 bytes",
      assumptions=["simdutf8 decides UTF-8 validity (modelled by Spec.Ref.utf8_valid; compared on every case)", "completeness of the container skipper is validated, not yet proved (skip_value_sound is proved)"])
 
+prop("C10",
+     rule="well-formed duplicate-free generated documents (depth<=4, strings with escapes/multibyte/structural bytes, leading pad 0..69 to move the 64-byte blocks) x up to 6 valid paths + perturbed paths x 15 lookup variants (checked/unchecked x 5 carriers, LazyValue/OwnedLazyValue/Value pointer, Value::get chain); plus block-edge documents with quotes/backslashes/brackets inside strings; non-trivial = non-empty path",
+     assumptions=["the 64-byte bitmap bookkeeping of skip_container_loop is tied to the scalar counting model by the correspondence (unit hooks + unchecked API), not by proof"])
+prop("C11",
+     rule="generated documents x 1..6 paths (shared prefixes, repeats, perturbed) filtered for shape consistency x {get_many, get_many_unchecked}; the implementation's slot vector is judged by the extracted reference lookup (verdict op); (schema, document) pairs against the reference merge",
+     assumptions=["hash-map iteration order of owned objects is irrelevant (results compared after sorting keys)"])
+prop("C12",
+     rule="generated documents (arrays/objects of width 0..6, nested, escaped keys, whitespace), 1/5 with trailing bytes, 1/3 mutated x {to_array_iter, to_object_iter} x {&[u8], &FastStr, &Bytes} + unchecked iterators and LazyValue::into_*_iter on the well-formed ones; each iterator polled 3 times past its end; transcript (spans, decoded keys) compared with the reference iterator",
+     assumptions=["invalid UTF-8 anywhere in the input is reported by the first poll (as the implementation does)"])
+prop("C14",
+     rule="generated documents mutated once (9 mutation kinds) x up to 5 paths x 6 checked get carriers, every prefix of small documents, get_many on the malformed stream, checked iterators; each returned span compared with the reference get on arbitrary bytes (Spec.Ref.ref_get = decision procedure of WfPrefix)",
+     assumptions=[])
+
 def classify_known(pid, case, known):
     """return the id of the recorded known finding this mismatch belongs to, or None"""
     for k in known:
@@ -79,6 +92,13 @@ def run_correspondence(pid, P, tier, seed, work, harness, run_model, load_tsv, k
         got = model.get(i)
         if got == want:
             continue
+        if got is not None and "||" in got:
+            # the model allows alternatives (one-directional properties)
+            alts = got.split("||")
+            if want in alts:
+                if want != alts[0]:
+                    stats.setdefault("stats", {})["impl-chose-alternative:" + want[:12]] = stats.get("stats", {}).get("impl-chose-alternative:" + want[:12], 0) + 1
+                continue
         parts = cases.get(i, "").split("\t")
         case = {"id": i, "op": parts[0], "args": parts[1:], "impl": want, "model": got if got is not None else "(missing)",
                 "seed": seed, "tier": tier, "kind": "unit" if parts[0] in P["unit_ops"] else "api"}
